@@ -27,33 +27,40 @@ var AllVariants = []string{"icmp4", "icmp6", "udp4", "udp6", "tcp", "tcp-paris",
 
 // Scenario is one complete, replayable case for a single protocol-level run.
 type Scenario struct {
-	Variant   string      `json:"variant"`
-	Strict    bool        `json:"strict"`
-	MinTTL    int         `json:"min_ttl"`
-	MaxTTL    int         `json:"max_ttl"`
-	TimeoutMs int         `json:"timeout_ms"`
-	DelayMs   int         `json:"delay_ms"`
-	PollMs    int         `json:"poll_ms"` // icmp and sack only; udp/tcp hard-code 100 ms
-	Target    string      `json:"target"`
-	Port      int         `json:"port"`
-	EchoBase  uint32      `json:"echo_base"`
-	PktIDBase uint32      `json:"pktid_base"`
-	SeqMode   string      `json:"seq_mode,omitempty"` // "" production randomness | fixed | ladder
-	SeqBase   uint32      `json:"seq_base,omitempty"`
-	Script    FlowScript  `json:"script"`
-	Noise     []NoiseItem `json:"noise,omitempty"`
-	Muts      []MutSpec   `json:"muts,omitempty"`
-	Flood     *FloodSpec  `json:"flood,omitempty"`
-	Sack      SackCfg     `json:"sack"`
-	Faults    []Fault     `json:"faults,omitempty"`
-	FiltersOff bool       `json:"filters_off,omitempty"`
-	CancelAtUs int64      `json:"cancel_at_us,omitempty"` // cancel the context this long after start (icmp, sack)
-	HandshakeMs int       `json:"handshake_ms,omitempty"`
-	WriteLagUs  int64     `json:"write_lag_us,omitempty"` // virtual duration of each WriteTo call
+	Variant     string      `json:"variant"`
+	Strict      bool        `json:"strict"`
+	MinTTL      int         `json:"min_ttl"`
+	MaxTTL      int         `json:"max_ttl"`
+	TimeoutMs   int         `json:"timeout_ms"`
+	DelayMs     int         `json:"delay_ms"`
+	PollMs      int         `json:"poll_ms"` // icmp and sack only; udp/tcp hard-code 100 ms
+	Target      string      `json:"target"`
+	Port        int         `json:"port"`
+	EchoBase    uint32      `json:"echo_base"`
+	PktIDBase   uint32      `json:"pktid_base"`
+	SeqMode     string      `json:"seq_mode,omitempty"` // "" production randomness | fixed | ladder
+	SeqBase     uint32      `json:"seq_base,omitempty"`
+	Script      FlowScript  `json:"script"`
+	Noise       []NoiseItem `json:"noise,omitempty"`
+	Muts        []MutSpec   `json:"muts,omitempty"`
+	Flood       *FloodSpec  `json:"flood,omitempty"`
+	Sack        SackCfg     `json:"sack"`
+	Faults      []Fault     `json:"faults,omitempty"`
+	FiltersOff  bool        `json:"filters_off,omitempty"`
+	CancelAtUs  int64       `json:"cancel_at_us,omitempty"` // cancel the context this long after start (icmp, sack)
+	HandshakeMs int         `json:"handshake_ms,omitempty"`
+	WriteLagUs  int64       `json:"write_lag_us,omitempty"` // virtual duration of each WriteTo call
+	Reuse       int         `json:"reuse,omitempty"`        // udp/tcp: run the same configuration value this many times in a row
+	earlier     []earlierRun
 }
 
-func (sc *Scenario) IsV6() bool     { return strings.HasSuffix(sc.Variant, "6") }
-func (sc *Scenario) Serial() bool   { return strings.HasPrefix(sc.Variant, "tcp") }
+type earlierRun struct {
+	Run *result.TracerouteRun
+	Err error
+}
+
+func (sc *Scenario) IsV6() bool   { return strings.HasSuffix(sc.Variant, "6") }
+func (sc *Scenario) Serial() bool { return strings.HasPrefix(sc.Variant, "tcp") }
 func (sc *Scenario) Poll() time.Duration {
 	switch sc.Variant {
 	case "icmp4", "icmp6", "sack":
@@ -79,18 +86,18 @@ func (sc *Scenario) ProbeKind() string {
 
 // Outcome is everything observable about one run.
 type Outcome struct {
-	Run      *result.TracerouteRun
-	Err      error
-	Panic    string
-	Deadlock string
-	Wire     *Wire
-	World    *NetWorld
-	Start    time.Duration // wire time at which the entry point was called
-	Elapsed  time.Duration
+	Run                 *result.TracerouteRun
+	Err                 error
+	Panic               string
+	Deadlock            string
+	Wire                *Wire
+	World               *NetWorld
+	Start               time.Duration // wire time at which the entry point was called
+	Elapsed             time.Duration
 	GorBefore, GorAfter int
 	FdBefore, FdAfter   int
 	FdList              string
-	SackAccepts int
+	SackAccepts         int
 }
 
 func parallelParams(sc *Scenario) common.TracerouteParallelParams {
@@ -122,10 +129,20 @@ func callEntry(ctx context.Context, sc *Scenario, target netip.AddrPort) (*resul
 	case "udp4", "udp6":
 		u := udp.NewUDPv4(net.IP(target.Addr().AsSlice()), target.Port(), uint8(sc.MinTTL), uint8(sc.MaxTTL), sc.Delay(), sc.Timeout(), false)
 		u.LoosenICMPSrc = !sc.Strict
+		// Reuse: the same configuration value is run several times in a row (the library's config structs are
+		// plain values with a Traceroute method); the earlier results are kept in sc.earlier
+		for i := 1; i < sc.Reuse; i++ {
+			r, err := u.Traceroute()
+			sc.earlier = append(sc.earlier, earlierRun{r, err})
+		}
 		return u.Traceroute()
 	case "tcp", "tcp-paris":
 		t := tcp.NewTCPv4(net.IP(target.Addr().AsSlice()), target.Port(), uint8(sc.MinTTL), uint8(sc.MaxTTL), sc.Delay(), sc.Timeout(), sc.Variant == "tcp-paris", false)
 		t.LoosenICMPSrc = !sc.Strict
+		for i := 1; i < sc.Reuse; i++ {
+			r, err := t.Traceroute()
+			sc.earlier = append(sc.earlier, earlierRun{r, err})
+		}
 		return t.Traceroute()
 	case "sack":
 		hs := time.Duration(sc.HandshakeMs) * time.Millisecond
